@@ -526,7 +526,7 @@ func (d *verifASAConf) clone() *verifASAConf {
 func VerifASAACL(cmdInfo string) {
 	N, _ := strconv.Atoi(vf.Param("N", "2"))
 	K, _ := strconv.Atoi(vf.Param("K", "6"))
-	G, _ := strconv.Atoi(vf.Param("G", "1"))       // object-groups per side
+	G, _ := strconv.Atoi(vf.Param("G", "1"))        // object-groups per side
 	MM, _ := strconv.Atoi(vf.Param("members", "2")) // members per group
 	cut := vf.Param("cut", "0") == "1"
 	vf.Assumption("ASA: ACL lines are plain lines from a menu of " + strconv.Itoa(K) + " or 'permit|deny ip object-group G any4'; no ACL holds the same entry twice modulo log; object-groups have 1.." + strconv.Itoa(MM) + " distinct members of 3 hosts")
@@ -577,14 +577,24 @@ func VerifASAACL(cmdInfo string) {
 	} else {
 		vf.Cover("changes emitted")
 	}
+	// C14 does not cover edits of the membership of a group that exists on
+	// the device (the creation of a new group is not such an edit)
 	groupEdit := false
+	inExisting := false
 	for _, c := range changes {
 		if strings.Contains(c, "\n") {
 			vf.Cover("move emitted (joined delete+add)")
 		}
+		if strings.HasPrefix(c, "object-group network ") {
+			inExisting = dA.group(strings.TrimPrefix(c, "object-group network ")) != nil
+		}
 		if strings.HasPrefix(c, "network-object ") || strings.HasPrefix(c, "no network-object ") {
-			groupEdit = true
-			vf.Cover("object-group membership edited")
+			if inExisting {
+				groupEdit = true
+				vf.Cover("object-group membership edited")
+			} else {
+				vf.Cover("new object-group created")
+			}
 		}
 		if strings.HasPrefix(c, "clear configure object-group") {
 			vf.Cover("object-group deleted")
